@@ -86,6 +86,21 @@ def enc_pop_state(pop):
     return out
 
 
+def capture_button(directory):
+    """the web Capture button: `WebApp.snapshot()` writes `__snapshot__.ls` into the script
+    directory; returns the file's text"""
+    from core import REPO
+    if REPO not in sys.path:
+        sys.path.insert(0, REPO)
+    from bardolph.lib import settings
+    settings.Settings._the_config['script_path'] = directory
+    settings.Settings._the_config['manifest_file_name'] = None
+    from web.web_app import WebApp
+    WebApp().snapshot()
+    with open(os.path.join(directory, '__snapshot__.ls')) as f:
+        return f.read()
+
+
 def main():
     chk = Check('C18', extra_modules=['Bardolph.Proofs.SemSteps'])
     chk.lean_phase(sections=set())
@@ -110,6 +125,31 @@ def main():
         chk.count()
         try:
             text = ScriptSnapshot().generate(None).text
+            if i % 4 == 0:
+                # through the Capture button, into a directory that already holds an earlier
+                # capture (of more lights, longer values): the file must be exactly the new script
+                import shutil
+                import tempfile
+                scratch = tempfile.mkdtemp(prefix='c18_')
+                try:
+                    earlier = rand_population(rng, 6) + copy.deepcopy(pop)
+                    for k, s in enumerate(earlier):
+                        s['label'] = '{} earlier capture {}'.format(s['label'], k)
+                    simnet.install(earlier)
+                    capture_button(scratch)
+                    net, ls, trace = simnet.install(copy.deepcopy(pop))
+                    filed = capture_button(scratch)
+                finally:
+                    shutil.rmtree(scratch, ignore_errors=True)
+                stats['captures_through_button'] = stats.get('captures_through_button', 0) + 1
+                if filed != text:
+                    k = next((j for j, (a, b) in enumerate(zip(filed, text)) if a != b), min(len(filed), len(text)))
+                    chk.violation('capture-file-differs-from-captured-script',
+                                  'after a second capture into the same directory the snapshot file ({} '
+                                  'characters) is not the captured script ({} characters); they differ from '
+                                  'character {}: file {!r}'.format(len(filed), len(text), k, filed[k:k + 40]),
+                                  {'population': pop, 'file': filed, 'script': text})
+                    text = filed
         except Exception as ex:  # noqa
             chk.violation('capture-raises', 'ScriptSnapshot.generate raised {}: {}'.format(
                 type(ex).__name__, ex), {'population': pop})
